@@ -95,29 +95,175 @@ func sameBehaviour(x inst.FFT, a, b inst.Domain, in inst.Vec) string {
 			}
 		}
 	}
-	_, e1 := a.Twiddles()
-	_, e2 := b.Twiddles()
-	if (e1 == nil) != (e2 == nil) {
-		return fmt.Sprintf("precomputed tables present: original %v, restored %v", e1 == nil, e2 == nil)
+	return sameTables(x, a, b)
+}
+
+// sameTables compares presence and contents of the four precomputed tables behind the accessors
+// Twiddles / TwiddlesInv / CosetTable / CosetTableInv ("... or an error if the domain was created with the
+// WithoutPrecompute option").
+func sameTables(x inst.FFT, a, b inst.Domain) string {
+	for _, tw := range []struct {
+		n string
+		f func(inst.Domain) ([]inst.Vec, error)
+	}{{"Twiddles", inst.Domain.Twiddles}, {"TwiddlesInv", inst.Domain.TwiddlesInv}} {
+		ta, e1 := tw.f(a)
+		tb, e2 := tw.f(b)
+		if (e1 == nil) != (e2 == nil) {
+			return fmt.Sprintf("%s() available: original %v, restored %v", tw.n, e1 == nil, e2 == nil)
+		}
+		if e1 != nil {
+			continue
+		}
+		if len(ta) != len(tb) {
+			return fmt.Sprintf("%s(): %d stages, original has %d", tw.n, len(tb), len(ta))
+		}
+		for k := range ta {
+			if ta[k].Len() != tb[k].Len() {
+				return fmt.Sprintf("%s()[%d]: length %d, original %d", tw.n, k, tb[k].Len(), ta[k].Len())
+			}
+			if i := firstDiff(x, tb[k], ta[k]); i >= 0 {
+				return fmt.Sprintf("%s()[%d][%d]: restored %s, original %s", tw.n, k, i, tb[k].At(i).Big(), ta[k].At(i).Big())
+			}
+		}
 	}
-	ca, e1 := a.CosetTable()
-	cb, e2 := b.CosetTable()
-	if (e1 == nil) != (e2 == nil) {
-		return fmt.Sprintf("coset table present: original %v, restored %v", e1 == nil, e2 == nil)
-	}
-	if e1 == nil {
+	for _, ct := range []struct {
+		n string
+		f func(inst.Domain) (inst.Vec, error)
+	}{{"CosetTable", inst.Domain.CosetTable}, {"CosetTableInv", inst.Domain.CosetTableInv}} {
+		ca, e1 := ct.f(a)
+		cb, e2 := ct.f(b)
+		if (e1 == nil) != (e2 == nil) {
+			return fmt.Sprintf("%s() available: original %v, restored %v", ct.n, e1 == nil, e2 == nil)
+		}
+		if e1 != nil {
+			continue
+		}
 		if ca.Len() != cb.Len() {
-			return "coset table length differs"
+			return fmt.Sprintf("%s(): length %d, original %d", ct.n, cb.Len(), ca.Len())
 		}
 		if i := firstDiff(x, cb, ca); i >= 0 {
-			return fmt.Sprintf("coset table entry %d differs", i)
+			return fmt.Sprintf("%s()[%d]: restored %s, original %s", ct.n, i, cb.At(i).Big(), ca.At(i).Big())
 		}
 	}
 	return ""
 }
 
-// TestC10_DomainIO: WriteTo → ReadFrom through every reader chunking restores a behaviourally identical
-// domain; the byte counts are the encoding length; every strict prefix of the encoding is rejected.
+// receiverKinds: the history of the object ReadFrom decodes into.
+var receiverKinds = []string{"zero", "other_size", "same_size_other_shift", "same_size_noprecompute", "after_readfrom", "same_size_other_shift_used"}
+
+// otherShift returns a non-zero shift different from s (the FrMultiplicativeGen of the source).
+func otherShift(t *rapid.T, f inst.Field, s *big.Int) *big.Int {
+	v, _ := spec(f).Elem(t, "oldshift")
+	one := big.NewInt(1)
+	for v.Sign() == 0 || v.Cmp(s) == 0 {
+		v = new(big.Int).Add(v, one)
+		v.Mod(v, f.Q())
+	}
+	return v
+}
+
+// mkReceiver builds the receiver of ReadFrom: (a) a zero Domain, (b) a NewDomain of another size, (c) the same
+// size with another shift (tables present), (d) the same size without precompute, (e) a Domain that already
+// decoded another same-size domain, (f) like (c) after it has been used for coset transforms.
+func mkReceiver(t *rapid.T, x inst.FFT, kind string, logn int, srcShift *big.Int) inst.Domain {
+	f := x.F()
+	n := uint64(1) << uint(logn)
+	old := otherShift(t, f, srcShift)
+	switch kind {
+	case "zero":
+		return x.ZeroDomain()
+	case "other_size":
+		l2 := rapid.IntRange(0, 10).Draw(t, "oldlogn")
+		if l2 == logn {
+			l2 = (logn + 1) % 11
+		}
+		o := inst.DomainOpt{WithoutPrecompute: rapid.Bool().Draw(t, "oldnopre")}
+		if rapid.Bool().Draw(t, "oldcustom") {
+			o.Shift = f.FromBig(old)
+		}
+		return x.NewDomain(uint64(1)<<uint(l2), o)
+	case "same_size_other_shift":
+		return x.NewDomain(n, inst.DomainOpt{Shift: f.FromBig(old)})
+	case "same_size_other_shift_used":
+		d := x.NewDomain(n, inst.DomainOpt{Shift: f.FromBig(old)})
+		v := f.NewVec(int(n))
+		d.FFT(v, inst.DIF, inst.FFTOpt{Coset: true})
+		d.FFTInverse(v, inst.DIT, inst.FFTOpt{Coset: true})
+		return d
+	case "same_size_noprecompute":
+		return x.NewDomain(n, inst.DomainOpt{Shift: f.FromBig(old), WithoutPrecompute: true})
+	default: // after_readfrom
+		prev := x.NewDomain(n, inst.DomainOpt{Shift: f.FromBig(old), WithoutPrecompute: rapid.Bool().Draw(t, "prevnopre")})
+		var w bytes.Buffer
+		if _, err := prev.WriteTo(&w); err != nil {
+			t.Fatalf("%s: WriteTo: %v", x.Name(), err)
+		}
+		d := x.ZeroDomain()
+		if _, err := d.ReadFrom(bytes.NewReader(w.Bytes())); err != nil {
+			t.Fatalf("%s: first ReadFrom of the receiver: %v", x.Name(), err)
+		}
+		return d
+	}
+}
+
+// refBehaviour compares all 8 transform variants of the restored domain d with the reference DFT of the
+// *source* description cd (completely for n <= 2^8, at sampled indices above).
+func refBehaviour(t *rapid.T, x inst.FFT, cd *checkedDomain, d inst.Domain, in []*big.Int, what string) {
+	rd := &checkedDomain{d: d, R: cd.R, shift: cd.shift, perm: cd.perm}
+	n := len(in)
+	vin := x.VecFromBig(in)
+	logn := cd.R.LogN
+	for _, coset := range []bool{false, true} {
+		var s *big.Int
+		if coset {
+			s = cd.shift
+		}
+		for _, inverse := range []bool{false, true} {
+			var want []*big.Int
+			var idx []int
+			if logn <= 8 {
+				if inverse {
+					want = cd.R.Inverse(in, s)
+				} else {
+					want = cd.R.Transform(in, s)
+				}
+			} else {
+				idx = []int{0, 1, n / 2, n - 1}
+			}
+			for _, dec := range []inst.Decimation{inst.DIT, inst.DIF} {
+				c := cfg{logn: logn, dec: dec, coset: coset, pre: true, tasks: 2, inverse: inverse}
+				out := rd.apply(x, vin, c)
+				switch {
+				case want != nil:
+					got := x.VecToBig(out)
+					for i := range got {
+						if got[i].Cmp(want[i]) != 0 {
+							t.Fatalf("%s: restored domain: %s: natural-order output index %d: got %s, the reference DFT of the serialised domain gives %s", what, c, i, got[i], want[i])
+						}
+					}
+				case inverse:
+					coef := x.VecToBig(out)
+					for _, i := range idx {
+						if v := cd.R.EvalAt(coef, cd.R.Point(i, s)); v.Cmp(in[i]) != 0 {
+							t.Fatalf("%s: restored domain: %s: returned coefficients evaluate to %s at point %d, input value %s", what, c, v, i, in[i])
+						}
+					}
+				default:
+					for _, i := range idx {
+						if w, g := cd.R.EvalAt(in, cd.R.Point(i, s)), out.At(i).Big(); g.Cmp(w) != 0 {
+							t.Fatalf("%s: restored domain: %s: natural-order output index %d: got %s want %s (Horner)", what, c, i, g, w)
+						}
+					}
+				}
+			}
+		}
+	}
+}
+
+// TestC10_DomainIO: WriteTo → ReadFrom through every reader chunking, into a receiver with every kind of
+// history (zero value, another size, same size with another shift / without tables, already decoded into, used),
+// restores a domain behaviourally identical to the source (exported fields, all 8 transforms equal to the source's
+// and to the reference DFT, same tables behind the accessors); the byte counts are the encoding length; every strict prefix of the encoding is rejected.
 func TestC10_DomainIO(t *testing.T) {
 	forFFTs(t, func(t *testing.T, x inst.FFT) {
 		test := "C10_DomainIO/" + x.Name()
@@ -140,9 +286,10 @@ func TestC10_DomainIO(t *testing.T) {
 			kind := rapid.SampledFrom(readerKinds).Draw(t, "reader")
 			trailing := rapid.SampledFrom([]int{0, 0, 1, 40}).Draw(t, "trailing")
 			stream := append(append([]byte{}, enc...), bytes.Repeat([]byte{0xa5}, trailing)...)
-			d2 := x.ZeroDomain()
+			into := rapid.SampledFrom(receiverKinds).Draw(t, "readfrom_into")
+			d2 := mkReceiver(t, x, into, logn, cd.shift)
 			rn, err := d2.ReadFrom(mkReader(t, kind, stream))
-			cfgs := fmt.Sprintf("%s Domain(n=2^%d precompute=%s shift=%v) reader=%s trailing=%d", x.Name(), logn, onoff(pre), sh, kind, trailing)
+			cfgs := fmt.Sprintf("%s Domain(n=2^%d precompute=%s shift=%v) reader=%s trailing=%d readfrom_into=%s", x.Name(), logn, onoff(pre), sh, kind, trailing, into)
 			if err != nil {
 				t.Fatalf("%s: ReadFrom of a complete encoding failed: %v", cfgs, err)
 			}
@@ -156,6 +303,7 @@ func TestC10_DomainIO(t *testing.T) {
 			if msg := sameBehaviour(x, cd.d, d2, x.VecFromBig(in)); msg != "" {
 				t.Fatalf("%s: restored domain behaves differently: %s", cfgs, msg)
 			}
+			refBehaviour(t, x, cd, d2, in, cfgs)
 			// truncation at every offset must be an error (through the same kind of reader)
 			for cut := 0; cut < len(enc); cut++ {
 				d3 := x.ZeroDomain()
@@ -167,8 +315,8 @@ func TestC10_DomainIO(t *testing.T) {
 			if sh != nil {
 				sc = "shift=custom"
 			}
-			rep.Case(test, fmt.Sprintf("%s %s#%s", cfgs, vcls, hashVals(in)), kind != "whole",
-				"reader="+kind, fmt.Sprintf("n=2^%d", logn), "precompute="+onoff(pre), sc, fmt.Sprintf("trailing=%d", trailing), "truncation:every_offset")
+			rep.Case(test, fmt.Sprintf("%s %s#%s", cfgs, vcls, hashVals(in)), kind != "whole" || into != "zero",
+				"readfrom_into:"+into, "reader="+kind, fmt.Sprintf("n=2^%d", logn), "precompute="+onoff(pre), sc, fmt.Sprintf("trailing=%d", trailing), "truncation:every_offset")
 		})
 	})
 }
@@ -202,4 +350,26 @@ func TestC10_Regress_F6(t *testing.T) {
 	})
 }
 
-var _ = big.NewInt
+// TestC10_Regress_F6b (rapid-free): ReadFrom of a domain serialised WithoutPrecompute into a receiver that holds
+// tables (a used domain) must not leave those tables behind Twiddles()/CosetTable(): the decoded domain "was created
+// with the WithoutPrecompute option", the accessors document an error, and the stale tables belong to another domain.
+func TestC10_Regress_F6b(t *testing.T) {
+	forFFTs(t, func(t *testing.T, x inst.FFT) {
+		src := x.NewDomain(16, inst.DomainOpt{WithoutPrecompute: true})
+		var w bytes.Buffer
+		if _, err := src.WriteTo(&w); err != nil {
+			t.Fatal(err)
+		}
+		recv := x.NewDomain(4, inst.DomainOpt{})
+		if _, err := recv.ReadFrom(bytes.NewReader(w.Bytes())); err != nil {
+			t.Fatal(err)
+		}
+		if msg := sameFields(x, src, recv); msg != "" {
+			t.Fatalf("%s: %s", x.Name(), msg)
+		}
+		if msg := sameTables(x, src, recv); msg != "" {
+			t.Fatalf("%s: domain of size 16 (no precompute) decoded into a used domain of size 4: %s", x.Name(), msg)
+		}
+		rep.Case("C10_Regress_F6b/"+x.Name(), x.Name()+" F6b stale tables after ReadFrom", true, "readfrom_into:other_size")
+	})
+}
